@@ -405,6 +405,86 @@ def clause19_shutdown_order(ctx, P):
            "freed first and used (close frame) and freed again by their peers", witness=bad.witness() if bad else None)
 
 
+def clause20_constructors_take_over_on_every_path(ctx, P, cg, own):
+    """the answer constructors of response.c take the JSON item they are given (the result of a request) over: once it is in the
+    answer, or deleted when the answer cannot be built.  A constructor that disposes of such a parameter on one path does so on
+    every path - the callers never release it themselves, so a path that just returns (a request without id is not answered)
+    leaks the item out of the accounted heap, for any peer that cares to send such requests"""
+    n = 0
+    bad = None
+    for g in P.own_functions():
+        if g.base != "response.c":
+            continue
+        for k in range(g.nparams):
+            if "struct.cJSON" not in g.params[k]["ty"] or P.srcname_of(g.name) == "add_item_to_object":
+                continue
+            pt = ("param", k, g.params[k]["name"])
+
+            def disposes(v):
+                ro = v.ret_operand()
+                if ro is not None and P.term(g, v.resolve(ro)) == pt:
+                    return True    # handed back to the caller
+                if v.has_atom(lambda a, pl: a[0] == "cmp" and a[2] == pt and a[3] == ("null",) and Q._poleq(a, pl)):
+                    return True    # nothing was handed in
+                for _, i in v.calls():
+                    if not i.callee:
+                        continue
+                    nm = P.srcname_of(i.callee)
+                    for j, a in enumerate(i.a):
+                        if P.term(g, a) != pt:
+                            continue
+                        if nm == "cJSON_Delete" or (nm in ("add_item_to_object", "cJSON_AddItemToObject", "cJSON_AddItemToArray") and j >= 1):
+                            return True
+                        h = P.functions.get(i.callee)
+                        if h is not None and P.own(h) and own.param_fate(h, j, lambda vv: True, "all") in ("consumed", "released"):
+                            return True
+                return False
+            views = list(Q.path_views(ctx, P, g))
+            ds = [disposes(v) for v in views]
+            if any(ds):
+                n += 1
+                if not all(ds) and bad is None:
+                    bad = (g, g.params[k]["name"], views[ds.index(False)])
+    ctx.ob("C07.1 R-OWN", P.fn("response.c:create_result_response_from_request"), "constructors-take-their-item-over-on-every-path",
+           bad is None and n >= 3,
+           ("%s() takes its parameter '%s' over on some paths (puts it into the answer or deletes it) and returns without touching it on "
+            "another: no caller releases it, the item stays accounted for good" % (bad[0].srcname, bad[1])) if bad else
+           "%d constructor parameters, each disposed of on every path" % n, witness=bad[2].witness() if bad else None)
+
+
+def clause21_connection_unlinked_once(ctx, P):
+    """free_connection() unlinks the http connection from the shutdown list unconditionally (list_del does not re-initialise the
+    node): any other unlink of that node leaves it with stale neighbours, and the destructor's unlink then writes into whatever
+    those neighbours have become.  So next_connection is unlinked only by the function that also frees the connection, or - as
+    the undo of its own list_add on the same path - by the function that linked it"""
+    n = 0
+    bad = None
+    for f in P.own_functions():
+        for v in Q.path_views(ctx, P, f) if any(P.srcname_of(c.callee or "") == "list_del" for c in f.all_insts() if c.op == "call") else []:
+            linked = set()
+            pend = []
+            for _, i in v.calls():
+                nm = P.srcname_of(i.callee) if i.callee else ""
+                if nm in ("list_add_tail", "list_add"):
+                    linked.add(P.term(f, i.a[0]))
+                elif nm == "list_del":
+                    t = P.term(f, i.a[0])
+                    if t[0] == "field" and t[3] == "next_connection":
+                        n += 1
+                        if t not in linked:
+                            pend.append((i, t[1]))
+                elif nm in ("cjet_free", "free") and pend:
+                    obj = P.term(f, i.a[0])
+                    pend = [(j, o) for (j, o) in pend if o != obj]
+            if pend and bad is None:
+                bad = (f, pend[0][0], v)
+    ctx.ob("C07.7 R-TYPESTATE", P.fn("http_connection.c:free_connection"), "connection-unlinked-only-by-its-destructor", bad is None and n >= 2,
+           ("%s() unlinks a connection from the shutdown list at %s without freeing it and without having linked it itself on that path: "
+            "free_connection() unlinks it again later, with stale neighbours" % (bad[0].srcname, bad[1].loc)) if bad else
+           "%d unlink(s) on paths, each by the destructor or as the undo of the function's own link" % n,
+           witness=bad[2].witness() if bad else None)
+
+
 def clause16_handed_over_items(ctx, P):
     """add_item_to_object() takes its item over whatever happens: attached on success, deleted on failure (checked here on the
     wrapper itself).  So no caller releases an item after it has passed it to the wrapper - not on the failure branch either, where
@@ -745,15 +825,34 @@ def clause7_linked(ctx, P, cg, own):
             unl = any((node_of(g, c.a[0]) or (None,))[0] == pt for c in g.calls(UNLINK))
             if frees and not unl:
                 releases[(g.name, k)] = True
+    # functions that hand back an object they have linked (an allocator that registers what it allocates)
+    producers = {}
+    for g in P.own_functions():
+        if not g.calls(LINK) or not g.ret.endswith("*"):
+            continue
+        for v in own.views(g):
+            ro = v.ret_operand()
+            if ro is None:
+                continue
+            rt = P.term(g, v.resolve(ro))
+            for k, i in v.calls():
+                if (P.srcname_of(i.callee) if i.callee else None) in LINK:
+                    nd = node_of(g, i.a[0])
+                    if nd and nd[0] == rt:
+                        producers[g.name] = (nd[1], nd[2])
     nlink = 0
     for f in P.own_functions():
-        if not f.calls(LINK):
+        if not f.calls(LINK) and not any(c.op == "call" and c.callee in producers for c in f.all_insts()):
             continue
         bad = None
         for v in own.views(f):
             linked = {}
             for k, i in v.calls():
                 cn = P.srcname_of(i.callee) if i.callee else None
+                if i.callee in producers:
+                    t = P.term(f, i.id)
+                    linked[t] = ((t,) + producers[i.callee], i)
+                    continue
                 if cn in LINK:
                     nd = node_of(f, i.a[0])
                     if nd:
@@ -923,6 +1022,7 @@ def run(ctx):
         own = Own(ctx, P, cg)
         ctx.note("functions discovered as returning a fresh owned object: %s" % sorted(P.srcname_of(n) for n in own.own_producers))
         clause1_own(ctx, P, cg, own)
+        clause20_constructors_take_over_on_every_path(ctx, P, cg, own)
         clause2_timers(ctx, P, cg)
         clause3_overwrite(ctx, P, cg, own)
         clause4_self(ctx, P, cg)
@@ -940,4 +1040,5 @@ def run(ctx):
         clause17_nothing_after_a_read_that_ran(ctx, P, cg)
         clause18_copied_children_are_attached(ctx, P)
         clause19_shutdown_order(ctx, P)
+        clause21_connection_unlinked_once(ctx, P)
         clause16_handed_over_items(ctx, P)
